@@ -575,8 +575,7 @@ fn reject_cases() -> Vec<(&'static str, TableModel)> {
     t.entries[0].segs[0].start = 0x20000;
     v.push(("format_2_patch_map_invalid_design_space", TableModel::F2(t)));
     let mut t = t2_custom_ids();
-    t.entries[1].id = IdSpec::Delta(-2 - 5 - 0); // "id delta" written as -2
-    t.entries[1].id = IdSpec::Delta(-2);
+    t.entries[1].id = IdSpec::Delta(-2); // the fixture's "id delta" field
     v.push(("format_2_patch_map_negative_entry_id", TableModel::F2(t)));
     let mut t = t2_custom_ids();
     t.entries[2].id = IdSpec::Delta(-20);
